@@ -446,7 +446,7 @@ package main
 (func "(*main.store).reload"
   (props C18 C19 C04 C12 C17)
   (requires complete (and (not (= (. s dir) nil)) (not (= (. s hooks) nil))))
-  (modifies (. s dir) sent.NewStore io.faults br.pos rd.pos)
+  (modifies (. s dir) sent.NewStore io.faults br.pos rd.pos yd.strict)
   (send "NewStore" 0
     (requires only-after-successful-switch (and (= (callresult "store.NewDirFromConfig" 0 1) nil)
                                                 (= (callresult "(*store.Dir).Check" 0 0) nil)
